@@ -6,6 +6,8 @@ import BV.Drive.Util
     recoder pcq <variant> <lgwin> <npostfix> <ndirect> <hedq> <nbe> <dc0,dc1,dc2,dc3> <mask> <pos> <len> <ringhex>
                 <cmds ins:copyfield:extra:cmdprefix:distprefix;…|-> <btl> <btc> <btd> <words len:offset:hex|!,…|->
     bt = <num_types>/<types,|->/<lengths,|->
+    recoder lmb <lgwin> <npostfix> <ndirect> <hedq> <ctx> <nbe> <dc> <input0hex> <input1hex> <cmds> <btl> <btc> <btd> <words>
+      (inputs of `LogMetaBlock` dumped by the cfg(brotli_verif) hook `verif_recoder_hook` in the real encoder)
     answer: `ok <nbe'> <ir tokens…>` | `panic`
 -/
 namespace BV.Drive.Recoder
@@ -66,6 +68,16 @@ def handle (args : List String) : String :=
       | none => "panic"
       | some (ir, nbe') => " ".intercalate (s!"ok {nbe'}" :: ir.map irToken)
     | _, _, _, _, _ => "bad-op"
+  | ["lmb", lgwin, np, nd, hedq, ctx, nbe, dc, in0, in1, cmds, btl, btc, btd, words] =>
+    match parseCmds cmds, parseSplit btl, parseSplit btc, parseSplit btd with
+    | some cmds, some btl, some btc, some btd =>
+      let ws := parseWords words
+      let e : Env := { dp := ⟨natArg np, natArg nd⟩, lgwin := natArg lgwin, hedq := natArg hedq, ctxSome := natArg ctx != 0,
+                       btl := btl, btc := btc, btd := btd, expand := lookupWord ws }
+      match logMetaBlock e (hexToBytes in0) (hexToBytes in1) cmds ((dc.splitOn ",").map intArg) (natArg nbe) with
+      | none => "panic"
+      | some (ir, nbe') => " ".intercalate (s!"ok {nbe'}" :: ir.map irToken)
+    | _, _, _, _ => "bad-op"
   | _ => "bad-op"
 
 end BV.Drive.Recoder
